@@ -95,14 +95,21 @@ Receive ==
            /\ replies' = Reply(0, "dup") /\ UNCHANGED <<status, svc>>
         ELSE IF ok[b] = "bad_nc" THEN        \* non_contextual_verify fails: INVALID, callback Err; no orphan search
            /\ status' = status \cup {b} /\ replies' = Reply(b, "err") /\ UNCHANGED svc
-        ELSE /\ svc' = [pc |-> "insert", b |-> b] /\ UNCHANGED <<status, replies>>
+        ELSE /\ svc' = [pc |-> "insert", b |-> b, conflict |-> FALSE] /\ UNCHANGED <<status, replies>>
   /\ UNCHANGED <<scen, order, dur, orphans, pending, preQ, verQ, vfy, lost>>
 
+\* insert_block is an optimistic RocksDB transaction. When the verify (or preload) thread deletes the very same block
+\* - an earlier copy of it failed - while the transaction is open, the commit fails ("Resource busy"); the error
+\* path drops the block's entry from block_status_map (also an INVALID mark just set) and answers Err.
+\* (The transaction is taken to be open from Receive on: a slight over-approximation.)
 Insert ==
   /\ svc.pc = "insert"
-  /\ stored' = stored \cup {svc.b}
-  /\ svc' = [pc |-> "broker", b |-> svc.b]
-  /\ UNCHANGED <<scen, order, rcvd, ext, index, tip, status, orphans, pending, preQ, verQ, vfy, replies, lost>>
+  /\ IF svc.conflict
+     THEN /\ status' = status \ {svc.b} /\ replies' = Reply(svc.b, "err") /\ svc' = Idle /\ UNCHANGED stored
+     ELSE /\ stored' = stored \cup {svc.b} /\ svc' = [pc |-> "broker", b |-> svc.b] /\ UNCHANGED <<status, replies>>
+  /\ UNCHANGED <<scen, order, rcvd, ext, index, tip, orphans, pending, preQ, verQ, vfy, lost>>
+\* a delete of block b by another thread hits an open insert transaction of the same block
+Hit(b) == IF svc.pc = "insert" /\ svc.b = b THEN [svc EXCEPT !.conflict = TRUE] ELSE svc
 
 \* Shared::get_block_status(p): block_status_map first, then the ext of the published snapshot
 Invalid(p) == p \in status
@@ -165,7 +172,8 @@ Preload ==
      THEN /\ verQ' = Append(verQ, b) /\ UNCHANGED <<stored, status, pending, replies>>
      ELSE /\ stored' = stored \ {b} /\ status' = status \cup {b} /\ pending' = pending \ {b}
           /\ replies' = Reply(b, "err") /\ UNCHANGED verQ
-  /\ UNCHANGED <<scen, order, rcvd, ext, index, tip, orphans, svc, vfy, lost>>
+  /\ svc' = IF PreloadOK THEN svc ELSE Hit(Head(preQ))
+  /\ UNCHANGED <<scen, order, rcvd, ext, index, tip, orphans, vfy, lost>>
 
 -----------------------------------------------------------------------------
 (* verify thread *)
@@ -191,7 +199,8 @@ Verify ==
                    /\ vfy' = [pc |-> "done", b |-> b, res |-> "new"] /\ UNCHANGED <<stored, status>>
            ELSE /\ ext' = [ext EXCEPT ![b] = "unv"]          \* not better: remember its total difficulty only
                 /\ vfy' = [pc |-> "done", b |-> b, res |-> "new"] /\ UNCHANGED <<stored, status, index, tip>>
-  /\ UNCHANGED <<scen, order, rcvd, orphans, pending, preQ, svc, replies, lost>>
+  /\ svc' = IF vfy'.res = "err" THEN Hit(Head(verQ)) ELSE svc
+  /\ UNCHANGED <<scen, order, rcvd, orphans, pending, preQ, replies, lost>>
 
 VerifyDone ==
   /\ vfy.pc = "done"
